@@ -38,7 +38,7 @@ func CASObj(name, instance string, content []byte) Obj {
 // ACValue builds a marshalled ActionResult of a chosen size class.
 func ACValue(exit int32, pad int) []byte {
 	m := &remoteexecution.ActionResult{ExitCode: exit}
-	if pad > 0 {
+	if pad >= 0 {
 		m.StdoutRaw = bytes.Repeat([]byte{'x'}, pad)
 	}
 	b, err := proto.Marshal(m)
